@@ -81,6 +81,10 @@ func c07System() *explore.System {
 		txOp("Send(A->burn,100uvch)", s(A), banktypes.NewMsgSend(A.Addr, burn, coins("100uvch"))),
 		txOp("Send(A->burn,all-that-exists-of-uvch)", s(A), banktypes.NewMsgSend(A.Addr, burn, coins("600uvch"))),
 	)
+	// "uhuge": an amount close to the largest representable one (2^253 of a supply of 2^254: anything computed from it with a
+	// multiplication overflows the 256-bit integer type)
+	huge253 := sdk.NewIntFromBigInt(new(big.Int).Lsh(big.NewInt(1), 253))
+	ops = append(ops, txOp("Send(A->burn,2^253uhuge)", s(A), banktypes.NewMsgSend(A.Addr, burn, sdk.NewCoins(sdk.NewCoin("uhuge", huge253)))))
 	ops = append(ops, ctlOps("NB")...)
 	sys := &explore.System{
 		ID:     "C07",
@@ -97,8 +101,9 @@ func c07System() *explore.System {
 					bg.SendEnabled = append(bg.SendEnabled, banktypes.SendEnabled{Denom: "uoff", Enabled: false})
 					for i := range bg.Balances {
 						if bg.Balances[i].Address == A.Bech {
-							bg.Balances[i].Coins = bg.Balances[i].Coins.Add(sdk.NewInt64Coin("uvch", 600))
-							bg.Supply = bg.Supply.Add(sdk.NewInt64Coin("uvch", 600))
+							extra := sdk.NewCoins(sdk.NewInt64Coin("uvch", 600), sdk.NewCoin("uhuge", sdk.NewIntFromBigInt(new(big.Int).Lsh(big.NewInt(1), 254))))
+							bg.Balances[i].Coins = bg.Balances[i].Coins.Add(extra...)
+							bg.Supply = bg.Supply.Add(extra...)
 						}
 					}
 					gs["bank"] = cdc.MustMarshalJSON(&bg)
